@@ -4,6 +4,7 @@ package main
 
 import (
 	"encoding/json"
+	"time"
 	"fmt"
 	"regexp"
 	"sort"
@@ -320,7 +321,10 @@ func runC10(r *Run) {
 	seen := map[*slog.Entry]bool{}
 	n := r.N(200000, 1500000)
 	dups := 0
-	for i := 0; i < n; i++ {
+	deadline := time.Now().Add(time.Duration(r.N(20, 120)) * time.Second) // a slow lookup must not starve the check
+	done := 0
+	for i := 0; i < n && (i%1000 != 0 || time.Now().Before(deadline)); i++ {
+		done++
 		var c *slog.Entry
 		switch i % 3 {
 		case 0:
@@ -336,7 +340,8 @@ func runC10(r *Run) {
 		seen[c] = true
 	}
 	r.Count(true, "stress")
-	r.Dist["stress_calls"] = n
+	r.Dist["stress_calls"] = done
+	n = done
 	if dups > 0 {
 		r.Fail("C10/with-fresh-child", fmt.Sprintf("%d of %d consecutive With.../New() calls on one logger returned an already existing child (the random child name repeated)", dups, n),
 			c10Case{Kind: "stress", Note: fmt.Sprintf("call root.WithLevel/New()/WithJSONMode %d times and compare the returned pointers", n)})
